@@ -250,3 +250,18 @@ Definition spec_case (c : case) : bool :=
   | PMBigCase _ _ _ _ _ _ _ dump => forallb (fun e => ascending_b (map t_start (snd (fst e)))) dump
   | ScanCase p d mm panicked rep => negb panicked && scan_spec p d mm rep
   end.
+
+(* which part of the specification fails on a scan case (bit mask; used only to
+   classify findings): 1 panic / matched bytes wrong, 2 a reported match is not
+   genuine, 4 offsets not strictly ascending, 8 a required start is missing,
+   16 more matches than max_matches_per_pattern; 32 for the other streams *)
+Definition diagnose (c : case) : N :=
+  match c with
+  | ScanCase p d mm panicked rep =>
+      let rs := ref_scan p d in
+      (if panicked then 1 else 0) + (if sound_b p d rs rep then 0 else 2) +
+      (if ascending_b (map t_start rep) then 0 else 4) +
+      (if limit_reached mm rep || complete_b p d rs rep then 0 else 8) +
+      (if count_ok mm rep then 0 else 16)
+  | _ => 32
+  end.
